@@ -210,6 +210,27 @@ def apply_op(R, g, op, chars):
         g.set_column_num_layers(newcol) if newcol.surface is not None else None
         if newcol.surface is None: newcol.num_layers = len(g.layerlist) - 1
         g.add_connection(mulgrids.connection([col, newcol]))
+    elif k == 'add_duplicate':
+        # the adders document: "if one with the specified name already exists, no new one is added" - a no-op
+        what = op['what']
+        if what == 'column':
+            if g.num_columns < 2: return g, None
+            a = g.columnlist[op['i'] % g.num_columns]; b = g.columnlist[(op['i'] + 1) % g.num_columns]
+            g.add_column(mulgrids.column(a.name, list(b.node), surface=b.surface))      # a's name on b's nodes
+        elif what == 'node':
+            a = g.nodelist[op['i'] % g.num_nodes]
+            g.add_node(mulgrids.node(a.name, a.pos + np.array([1.0, 1.0])))
+        elif what == 'layer':
+            a = g.layerlist[op['i'] % len(g.layerlist)]
+            g.add_layer(mulgrids.layer(a.name, a.bottom - 1.0, a.centre))
+        elif what == 'well':
+            if not g.welllist: return g, None
+            a = g.welllist[op['i'] % len(g.welllist)]
+            g.add_well(mulgrids.well(a.name, [np.array([0., 0., 0.]), np.array([0., 0., -1.])]))
+        else:
+            if not g.connectionlist: return g, None
+            con = g.connectionlist[op['i'] % g.num_connections]
+            g.add_connection(mulgrids.connection([con.column[0], con.column[1]]))
     elif k == 'readd_connection':
         if not g.connectionlist: return g, None
         con = g.connectionlist[op['con'] % g.num_connections]
@@ -327,7 +348,7 @@ def mesh_is_valid(g):
     return not any(f.startswith('mesh:') for f in failed)
 
 
-NEED_VALID = {'refine', 'decompose', 'split_column', 'add_column', 'reduce'}
+NEED_VALID = {'refine', 'decompose', 'split_column', 'add_column'}
 
 
 def is_connected(g):
@@ -367,7 +388,7 @@ def run_history(R, g, ops, chars, known_refresh=True):
         kinds.append(kind); R.label('op:' + kind)
         before = len(R.findings)
         # an operation that promises a valid mesh is held to that promise when it started from one
-        failed = invariant(R, g, kind, mesh_valid=(kind in PROMISE_VALID and (valid_before or kind in ('reduce', 'file') and False)))
+        failed = invariant(R, g, kind, mesh_valid=(kind in PROMISE_VALID and (valid_before or kind == 'reduce')))
         if failed:
             new = R.findings[before:]
             if all(known_match(known, s) is not None for s, _d in new):
@@ -409,6 +430,8 @@ def small_alphabet(ncols, max_subset):
           {'op': 'rename_layer', 'lay': 0}, {'op': 'add_well'}, {'op': 'delete_well', 'w': 0}, {'op': 'translate', 'shift': [5., -3., 2.]},
           {'op': 'rotate', 'angle': 30.}, {'op': 'copy_layers', 'dz': [3., 3., 5., 9.]}, {'op': 'copy_layers', 'dz': [3., 3., 5., 9.], 'top': 6.}, {'op': 'file'}, {'op': 'add_node'},
           {'op': 'delete_orphan_node'}]
+    A += [{'op': 'add_duplicate', 'what': w, 'i': 0} for w in ('column', 'node', 'layer', 'well', 'connection')]
+    A.append({'op': 'add_duplicate', 'what': 'column', 'i': 1})
     for n in range(1, ncols):
         for seed in range(ncols): A.append({'op': 'reduce', 'seed': seed, 'n': n - 1})
     for r in (1, 2):
@@ -452,6 +475,7 @@ def op_strategy():
         st.builds(lambda a: {'op': 'rotate', 'angle': a}, st.sampled_from([15., 45., 90., -60.])),
         st.builds(lambda d, t: {'op': 'copy_layers', 'dz': d, 'top': t}, st.lists(st.sampled_from([2., 5., 10.]), min_size=1, max_size=6),
                   st.sampled_from([0., 0., 5., 12., -5., -12.])),
+        st.builds(lambda w, n: {'op': 'add_duplicate', 'what': w, 'i': n}, st.sampled_from(['column', 'node', 'layer', 'well', 'connection']), i),
         st.just({'op': 'file'}), st.just({'op': 'add_node'}), st.just({'op': 'delete_orphan_node'}))
 
 
